@@ -263,9 +263,15 @@ def corpus_validate(ctx, scripts, name, prop=None):
                                      "states_generated": st["generated"]}
     n = 0
     # specification-independent: no run may crash, whatever the program
+    finished = {i: (o is not None and o["status"]["k"] in ("done", "failed")) for i, o in zip(idx, outs)}
     for i, (so, se, code) in enumerate(runs):
         cr = sv.crashed(se, code)
         if cr and cr != "timeout":
+            if b"has overflowed its stack" in se and not finished.get(i, False):
+                # recursion without end (the specification's run does not finish either): the property is about
+                # programs whose depth fits the host's stack
+                ctx.skip("unbounded recursion exhausts the stack (outside C02: depth must fit the host's stack)")
+                continue
             ctx.violation("the interpreter crashed (%s) on %s" % (cr, scripts[i][0]), script=scripts[i][1],
                           detail={"stderr": se.decode(errors="replace")[-2000:], "exit": code}, prop="C02")
     ctx.evaluations += len(runs)
@@ -601,7 +607,7 @@ def c04_random_seqs(seed, n):
     import random
     rnd = random.Random(seed)
     simple = ["D", "A", "R", "Dy", "Ry", "C", "C1", "S", "Q", "D", "R", "Q", "A", "Dx", "Fr", "G", "Cg",
-              "K", "B", "Sw", "So", "Q", "D", "Sr"]
+              "K", "B", "Sw", "So", "Q", "D", "Sr", "Qf"]
     openers = ["{", "I{", "F{", "L{", "W{", "T{", "T{", "L{", "W{", "Lx{", "Ox{", "E{"]
 
     def gen(budget, depth):
@@ -782,6 +788,11 @@ BOUNDARY_PROGRAMS = [
     ("o := {\"type\": [1]->type}\nprint(o[\"type\"]())\n", "object\n"),
     ("f := \"h\u00e9\"->len\nprint(f())\n", "3\n"),
     ("print(\"na\u00efve\"[:3]->len())\n", None),
+    ("print($\"${18446744073709551616}\")\n", None),
+    ("print($\"${18446744073709551619 + 1}\")\n", None),
+    ("s := \"h\u00e9llo w\u00f6rld\"\nprint(s[9:2])\n", None),
+    ("s := \"h\u00e9llo\"\nprint(s[3:3] + \"|\")\nprint(s[4:1])\n", None),
+    ("xs := [1, 2, 3]\nprint(xs[2:1])\n", None),
 ]
 
 
@@ -814,7 +825,7 @@ def boundary_programs(ctx, name):
 
 
 def c02(ctx):
-    nm = 3 if ctx.quick else 40
+    nm = 3 if ctx.quick else 15
     ctx.rule = ("12 alias shapes (same container twice, self-containing, inside its comparand, mutual, shared child, "
                 "two self-containing, deep self, object self / mixed / same, nested) x 24 hazard operations x 3 "
                 "operand orders; / and %% with zero divisor and zero dividend in plain and three op-assign forms; "
@@ -1784,7 +1795,9 @@ def c06(ctx):
                                               "stderr": se.decode(errors="replace"), "expected": want})
     # literals
     lits = ["0", "7", "1_000", "1_2_3", "9223372036854775807", "9223372036854775808", "9_223_372_036_854_775_807",
-            "0009", "18446744073709551616", "99999999999999999999", "1__0", "4611686018427387904", "000", "10_"]
+            "0009", "18446744073709551616", "99999999999999999999", "1__0", "4611686018427387904", "000", "10_",
+            "0_000_000_000_000_000_000_042", "000_000_000_000_000_000_000_1", "0_0", "00000000000000000000009223372036854775807",
+            "0_9223372036854775808", "18446744073709551617", "18446744073709551619", "18_446_744_073_709_551_616"]
     for i, lt in enumerate(lits):
         fn = "l%d.sd" % i
         open(os.path.join(d, fn), "w").write("print(%s)\n" % lt)
